@@ -11,7 +11,7 @@
 (* code no longer follows the machine, which is reported but is not by     *)
 (* itself a violation).                                                    *)
 (***************************************************************************)
-EXTENDS Pratt, Grammar, Json, IOUtils
+EXTENDS Pratt, Grammar, Json, IOUtils, BigTableDef
 Recs == ndJsonDeserialize(IOEnv.TRACE)
 TraceSource(i) == IF Recs[i].lex_ok THEN Recs[i].toks ELSE <<>>
 TraceN == Len(Recs)
